@@ -190,14 +190,14 @@ func runC11Concurrent(t failer) {
 	ev.NonTrivial("concurrent-authorization", cse)
 }
 
-// TestC12EnumConcurrent: eight connections send accounting records at the same moment, 400 each, every one
+// TestC12EnumConcurrent: eight connections send accounting records at the same moment, 1000 each, every one
 // different; afterwards every acknowledged request has exactly one line in the sink that decodes to it.
 func TestC12EnumConcurrent(t *testing.T) { runC12Concurrent(t) }
 
 func runC12Concurrent(t failer) {
 	ev.Eval()
 	cfg := c12Config()
-	cse := map[string]interface{}{"concurrent_connections": concClients, "records_each": 400}
+	cse := map[string]interface{}{"concurrent_connections": concClients, "records_each": 1000}
 	journal("C12", cse)
 	env, err := startRef(cfg, refOpts{recover: true, quiet: true})
 	if err != nil {
@@ -207,7 +207,7 @@ func runC12Concurrent(t failer) {
 	var mu sync.Mutex
 	acked := map[string]model.AcctRequest{}
 	cf := eachClient(t, env, func(i int, d *connDriver) *concFailure {
-		for k := 0; k < 400; k++ {
+		for k := 0; k < 1000; k++ {
 			id := fmt.Sprintf("task_id=%d-%d", i, k)
 			req := model.AcctRequest{Flags: []byte{2, 4, 8}[k%3], Method: 6, Priv: byte(i), AType: 1, Service: 1, User: b("alice"), Port: model.B(fmt.Sprintf("tty%d", i)), RemAddr: b("r"),
 				Args: []model.B{model.B(id), model.B(fmt.Sprintf("cmd=show %s <cr> \"q\" %%d", string(rune('a'+i)))), model.B(fmt.Sprintf("elapsed_time=%d", k))}}
